@@ -183,6 +183,8 @@ def call_builtin(ex, name, args, kwargs, node):
         a, b = ex.val(args[0]), ex.val(args[1])
         q = ex.binop(ast.FloorDiv(), a, b); r = ex.binop(ast.Mod(), a, b)
         return V(TTuple([TInt, TInt]), [q, r])
+    if name in ('immutables.Map', 'immu.Map', 'dict') and len(args) == 1 and not kwargs and isinstance(args[0], V) and isinstance(args[0].ty, (TMap,)):
+        return args[0]          # a copy of a finite map (value semantics)
     if name in ('immutables.Map', 'immu.Map') and len(args) == 1 and not kwargs:
         a = ex.val(args[0])
         if isinstance(a.ty, TSeq) and z3.is_int_value(z3.simplify(a.t[0])) and isinstance(a.ty.elem, TTuple) and len(a.ty.elem.items) == 2:
